@@ -558,6 +558,42 @@ def connect_specs(draw):
 
 
 @st.composite
+def wrapped_connect_specs(draw):
+    """ lists that have to be connected over the origin: 1-3 locations close to the end of the record and 1-3 close to its
+        start (none crossing it), often nested in one another or sharing a start or an end, together shorter than half
+        the ring; given in any order """
+    length = draw(st.sampled_from([40, 100, 101, 1000, 3000]))
+    reach = max(6, draw(st.sampled_from([length // 10, length // 5, length // 4])))
+
+    def side(low: int, high: int) -> list:
+        made: list = []
+        for _ in range(draw(st.integers(1, 3))):
+            if made and draw(st.integers(0, 2)):
+                # relative to an earlier one: inside it, sharing its start, sharing its end, or around it
+                s0, e0 = draw(st.sampled_from(made))
+                kind = draw(st.sampled_from(["inside", "same_start", "same_end", "around"]))
+                if kind == "inside" and e0 - s0 >= 3:
+                    start = draw(st.integers(s0 + 1, e0 - 2))
+                    end = draw(st.integers(start + 1, e0 - 1))
+                elif kind == "same_start" and e0 - s0 >= 2:
+                    start, end = s0, draw(st.integers(s0 + 1, e0 - 1))
+                elif kind == "same_end" and e0 - s0 >= 2:
+                    start, end = draw(st.integers(s0 + 1, e0 - 1)), e0
+                else:
+                    start, end = max(low, s0 - draw(st.integers(0, 2))), min(high, e0 + draw(st.integers(0, 2)))
+            else:
+                start = draw(st.integers(low, high - 1))
+                end = draw(st.integers(start + 1, high))
+            made.append((start, end))
+        return made
+    lower = side(0, reach)
+    upper = side(length - reach, length)
+    locs = [{"parts": [[start, end]], "strand": draw(st.sampled_from([1, -1, 1])), "kind": "simple"} for start, end in lower + upper]
+    locs = draw(st.permutations(locs))
+    return {"L": length, "locs": list(locs), "wrap": True}
+
+
+@st.composite
 def extend_specs(draw):
     length = draw(gen.lengths(1, 3000))
     circular = draw(st.booleans())
@@ -647,6 +683,7 @@ def run(ctx) -> None:
     ctx.hyp("offset", big_offset_specs(), max_examples=ctx.pick(400, 10000), shards=rand_shards)
     ctx.hyp("offset", touching_offset_specs(), max_examples=ctx.pick(600, 15000), shards=rand_shards)
     ctx.hyp("connect", connect_specs(), max_examples=ctx.pick(1500, 40000), shards=rand_shards)
+    ctx.hyp("connect", wrapped_connect_specs(), max_examples=ctx.pick(800, 20000), shards=rand_shards)
     ctx.hyp("extend", extend_specs(), max_examples=ctx.pick(1000, 30000), shards=rand_shards)
     ctx.hyp("offset", offset_specs(), max_examples=ctx.pick(1500, 40000), shards=rand_shards)
     ctx.hyp("bridge", bridge_specs(), max_examples=ctx.pick(800, 20000), shards=rand_shards)
